@@ -97,8 +97,10 @@ theorem plain_send_effects {c : Ctx} {w : World} {bp : Nat} {tx : Tx} {r : Addr}
       have hmk : mkReceiver w tx = .ok (w.getCopy r, .success) := by
         simp [mkReceiver, hr, hnr]
       rw [if_neg (by rcases ht with e | e | e <;> simp [e]), hmk] at h
+      have hrs : ¬ tx.recipient = some tx.sender := by
+        rw [hr]; intro e; exact hne (Option.some.inj e).symm
       have hfin : finishVm w bp tx .success false (execute c w tx (w.getCopy tx.sender) (w.getCopy r) false) = res := by
-        rcases ht with e | e | e <;> simpa [e] using h
+        rcases ht with e | e | e <;> simpa [e, hrs] using h
       have herr := finishVm_success_err (hfin ▸ hs)
       obtain ⟨_, hex⟩ := execute_plain (c := c) (w := w) (tx := tx) (isFD := false) rfl herr (by simpa using hne)
         (by simp) (by simpa using hcode)
@@ -111,9 +113,32 @@ theorem plain_send_effects {c : Ctx} {w : World} {bp : Nat} {tx : Tx} {r : Addr}
         getCopy_id, getCopy_cur, ne_eq, hne, not_false_eq_true, if_true]
       simp [absSub, hcov.1, hfee, Acct.setNonce, World.bal]
 
+theorem finishOwn_success_err {w : World} {bp : Nat} {tx : Tx} {st : Status} {o : ExecOut}
+    (hs : (finishOwn w bp tx st o).outcome = .success) : o.err = none := by
+  unfold finishOwn at hs
+  simp only [] at hs
+  split at hs
+  · simp at hs
+  · exact absurd hs (runtimeBranch_not_success _ _ _ _ _ _ _ _ _)
+  · rename_i he; exact he
+
+/-- `executeOwn` on a record without code, without an error: nothing is executed, the fee is the base fee -/
+theorem executeOwn_plain {c : Ctx} {w : World} {tx : Tx} {acc : Copy} {isFD : Bool} {o : ExecOut}
+    (h : executeOwn c w tx acc isFD = o) (he : o.err = none) (hd : acc.deploy = false) (hc : acc.cur.code = false) :
+    o = { snd := acc, rcv := acc, w := w, fee := txBaseFee c tx.payloadLen, err := none } := by
+  unfold executeOwn at h
+  simp only [] at h
+  split at h
+  · subst h; simp at he
+  · subst h; rfl
+  · split at h
+    · subst h; simp at he
+    · unfold vmCall at h
+      simp only [hd, hc, Bool.false_eq_true, if_false] at h
+      subst h; simp at he
+
 /-- **A payment to oneself, if applied, costs the base fee and the nonce**: NORMAL / TRANSFER / CALL whose
-recipient is the sender (a key account: no code): the two records of the one account are handled so that
-nothing but fee and nonce changes. -/
+recipient is the sender (a key account: no code): `receiver = sender`, nothing but fee and nonce changes. -/
 theorem self_send_effects {c : Ctx} {w : World} {bp : Nat} {tx : Tx} {res : Result}
     (h : executeTx c w bp tx = res)
     (ht : tx.type = .transfer ∨ tx.type = .normal ∨ tx.type = .call) (hr : tx.recipient = some tx.sender)
@@ -136,20 +161,21 @@ theorem self_send_effects {c : Ctx} {w : World} {bp : Nat} {tx : Tx} {res : Resu
       have hmk : mkReceiver w tx = .ok (w.getCopy tx.sender, .success) := by
         simp [mkReceiver, hr, hnr]
       rw [if_neg (by rcases ht with e | e | e <;> simp [e]), hmk] at h
-      have hfin : finishVm w bp tx .success false (execute c w tx (w.getCopy tx.sender) (w.getCopy tx.sender) false) = res := by
-        rcases ht with e | e | e <;> simpa [e] using h
-      have herr := finishVm_success_err (hfin ▸ hs)
+      have hfin : finishOwn w bp tx .success (executeOwn c w tx (w.getCopy tx.sender) false) = res := by
+        rcases ht with e | e | e <;> simpa [e, hr] using h
+      have herr := finishOwn_success_err (hfin ▸ hs)
       clear h
-      obtain ⟨e1, e2, e3, e4, e5⟩ := execute_self (c := c) (w := w) (tx := tx) (snd := w.getCopy tx.sender)
-        (rcv := w.getCopy tx.sender) (isFD := false) rfl rfl (by simp [hcode]) (by simp)
+      have hex := executeOwn_plain (c := c) (w := w) (tx := tx) (acc := w.getCopy tx.sender) (isFD := false) rfl herr
+        (by simp) (by simp [hcode])
       have hfee : txBaseFee c tx.payloadLen ≤ (w.acct tx.sender).bal := by omega
       have hb : (w.acct tx.sender).bal = w.bal tx.sender := rfl
+      rw [hex] at hfin
       subst hfin
       refine ⟨by omega, ?_, ?_⟩
-      · simp only [finishVm, herr, successBranch, Bool.false_eq_true, if_false, e1, e3, e4, e5 herr, Copy.subBalance,
-          Copy.setBal, getCopy_id, getCopy_cur, ne_eq, not_true_eq_false]
+      · simp only [finishOwn, successBranch, Copy.subBalance, Copy.setBal, getCopy_id, getCopy_cur, ne_eq,
+          not_true_eq_false, if_false]
         simp [absSub, hfee, Acct.setNonce, World.bal]
-      · simp [finishVm, herr, successBranch, e5 herr]
+      · simp [finishOwn, successBranch]
 
 /-- a MULTICALL transaction is never applied by the stub VM (no code): it fails at run time or is rejected -/
 theorem multicall_not_applied {c : Ctx} {w : World} {bp : Nat} {tx : Tx} (ht : tx.type = .multicall) :
@@ -855,6 +881,9 @@ theorem vm_effects {c : Ctx} {w : World} {bp : Nat} {tx : Tx} {res : Result}
           rcases hvm with hd | hc
           · exact Or.inl (by rw [m3]; exact hd)
           · exact Or.inr (by rw [m2, m1]; exact hc)
+        have hrs : ¬ tx.recipient = some tx.sender := by
+          intro e; apply hne; simp [Tx.target, e]
+        simp only [hrs, decide_false, Bool.false_and, Bool.false_eq_true, if_false] at h
         split at h
         · rename_i hty; exact absurd hty hg
         · rename_i hty
